@@ -16,7 +16,10 @@ tie (`corr.xformer`):  tiny real `xformer.Transformer`s in float64 are run in-pr
 property on the implementation (always run; no model involved): alone vs padded vs batched vs other pad content
     vs other suffix (causal), float32 (1e-5 · max(1,‖·‖∞)) and float64 (1e-12 · …); `ModelWrapper.evaluate` range;
     sessions of the call sites (kinds `server`, `evaluate`, `dataset`): every answer of the long-lived object vs the
-    same position evaluated alone on a fresh one.
+    same position evaluated alone on a fresh one (and, for `evaluate`, inside a padded batch).  The position pools
+    contain near-duplicates (`variant`): same board with other reserves, other side to move, other move number.
+    Keys: padding-dependent, batch-dependent, causal-leak, evaluate-range, evaluate-stale-state (a long-lived
+    ModelWrapper answers differently from a fresh one), impl-exception (the implementation raised).
     The comparison itself is done by the driver (`xformer close`, `xformer range`).
 """
 import asyncio
@@ -54,6 +57,16 @@ ASSUMPTIONS = [
 ]
 
 TIE_TOL = 1e-9
+
+# An exception out of the implementation (or a value of a surprising type/shape) is an OBSERVATION, not a failure of
+# the machinery: it becomes a divergence / a violation with key `impl-exception`.  Only a tree that cannot be
+# imported at all is left to propagate (exit 2).
+FATAL = (ImportError, SyntaxError, KeyboardInterrupt, SystemExit, MemoryError)
+
+
+def crash_text(e):
+    return "crash %s: %s" % (type(e).__name__, str(e)[:160])
+
 TOL = {"float32": 1e-5, "float64": 1e-12}
 N_SUB = 6  # rows of move_proj sent to the driver in the ordinary pv cases
 
@@ -144,15 +157,23 @@ def _tie_generic(ctx, divs):
         masks = masks_of(rows, lens)
         if all(l == len(r) for r, l in zip(rows, lens)) and rng.random() < 0.5:
             masks = None
-        out = run_model(m, rows, masks)
         if cfg.head == "pv":
             ids = sorted(rng.sample(range(max_move_id()), N_SUB))
             n_out, w = xf.export(m, cfg, ids)
         else:
             ids = None
             n_out, w = xf.export(m, cfg)
+        try:
+            out = run_model(m, rows, masks)
+            impl = [out_vec(out, cfg, i, lens[i], ids) for i in range(len(rows))]
+        except FATAL:
+            raise
+        except Exception as e:
+            divs.append(Divergence("corr.xformer", {"kind": "tie", "cfg": cfg.to_json(), "rows": rows, "lens": lens, "mask": masks is not None, "index": 0}, crash_text(e), "the model accepts this batch"))
+            ctx.count("model-mismatch")
+            continue
         lines.append(xf.case_line(cfg.head, cfg, n_out, w, rows, masks))
-        meta.append((cfg, rows, lens, masks, ids, [out_vec(out, cfg, i, lens[i], ids) for i in range(len(rows))]))
+        meta.append((cfg, rows, lens, masks, ids, impl))
         ctx.count("tie:pos=%s" % cfg.pos)
         ctx.count("tie:%s" % ("causal" if cfg.causal else "full"))
         ctx.count("tie:layers=%d" % cfg.n_layer)
@@ -282,21 +303,62 @@ def _replay_buffer_module():
         return mod
 
 
+def variant(rng, p):
+    """a position that differs from p in ONE component of the state that the board does not show (or in none):
+    stones left in reserve, capstones left, side to move, move number; all within the token vocabulary"""
+    t = ser.pos_str(p).split(" ")
+    k = rng.choice(["reserves", "reserves", "caps", "side", "move-number", "same"])
+    if k == "reserves":
+        for i in rng.sample([1, 3], rng.randint(1, 2)):
+            t[i] = str(rng.choice([v for v in range(0, 50) if v != int(t[i])]))
+    elif k == "caps":
+        i = rng.choice([2, 4])
+        t[i] = "0" if int(t[i]) else "1"
+    elif k == "side":
+        t[5] = str(int(t[5]) + 1 if int(t[5]) == 0 or rng.random() < 0.5 else int(t[5]) - 1)
+    elif k == "move-number":
+        t[5] = str(int(t[5]) + 2)
+    return ser.parse_pos(t)
+
+
 def positions(rng, n):
-    """real positions whose encoding exists (standard reserves), sizes 3..5"""
+    """real positions whose encoding exists, sizes 3..5: reachable ones (standard reserves) and, next to about
+    half of them, near-duplicates (`variant`) — same board, other reserves / side to move / move number"""
     from tak.model import encoding
 
-    out = []
+    def enc(p):
+        try:
+            e = encoding.encode(p)
+        except FATAL:
+            raise
+        except Exception:
+            return None
+        return e if all(isinstance(t, int) and 0 <= t < 256 for t in e) else None
+
+    base = []
     tries = 0
-    while len(out) < n and tries < 20:
+    while len(base) < n and tries < 20:
         tries += 1
         for _, p in gen.sample_positions(rng, [3, 4, 5], 1, per_game=4, constructed_per_size=0, custom_prob=0.0):
+            e = enc(p)
+            if e is not None:
+                base.append((p, e))
+    rng.shuffle(base)
+    out = []
+    for p, e in base:
+        if len(out) >= n:
+            break
+        out.append((p, e))
+        while len(out) < n and rng.random() < 0.5:
             try:
-                e = encoding.encode(p)
+                q = variant(rng, p)
+            except FATAL:
+                raise
             except Exception:
-                continue
-            if all(0 <= t < 256 for t in e):
-                out.append((p, e))
+                break
+            eq = enc(q)
+            if eq is not None:
+                out.append((q, eq))
     rng.shuffle(out)
     return out[:n]
 
@@ -367,66 +429,80 @@ def serve(model, requests, device="cpu"):
 def call_site_runs(rng, cfg, m, pe):
     """drive the call sites through SESSIONS on the positions `pe` = [(pos, encoded)]: one ModelWrapper, one
     ReplayBufferDataset and one Server each live through several rounds of varying lengths per row position.
-    Returns ([(site, x rows, mask rows|None, lens, out dict)] as observed at the model's entry, evals, rounds)."""
+    Returns (runs, evals, rounds, problems): runs = [(site, x rows, mask rows|None, lens, out dict)] as observed at
+    the model's entry; evals = [(position index, ModelWrapper.evaluate result)]; problems = [(site, text)] for
+    every exception raised by a call site (an observation about the implementation, not an internal error)."""
     from tak.model import batches, encoding, wrapper
 
     rec = Recorder(m)
-    runs = []
+    runs, evals, problems = [], [], []
     poss = [p for p, _ in pe]
     encs = [e for _, e in pe]
     rounds = schedule(rng, len(pe))
 
-    # ModelWrapper.evaluate: one wrapper object, one unpadded row per call, no mask
-    evals = []
-    mw = wrapper.ModelWrapper(rec)
-    order = [i for r in rounds for i in r][:8]
-    for i in order:
+    def site_wrapper():
+        # ModelWrapper.evaluate: ONE wrapper object, one unpadded row per call, no mask.  A call that does not
+        # reach the model at all (an answer remembered from before) leaves nothing to record here; its returned
+        # numbers are still compared (with the model through the driver, and in the `evaluate` sessions).
+        mw = wrapper.ModelWrapper(rec)
+        for i in [i for r in rounds for i in r][:8]:
+            rec.calls.clear()
+            evals.append((i, mw.evaluate(poss[i])))
+            for x, mk, out in rec.calls:
+                runs.append(("wrapper", x.tolist(), None if mk is None else mk.tolist(), [len(encs[i])] * x.shape[0], out))
+
+    def site_pvp():
+        # encode_batch + PositionValuePolicy, one batch object per round, extra_inputs read afresh each time
+        for r in rounds[:3]:
+            enc, mask = encoding.encode_batch([poss[i] for i in r])
+            b = batches.PositionValuePolicy({"positions": enc.long(), "mask": mask})
+            for _ in range(2):
+                rec.calls.clear()
+                with torch.no_grad():
+                    rec(b.inputs, *b.extra_inputs)
+                x, mk, out = rec.calls[-1]
+                runs.append(("pvp", x.tolist(), None if mk is None else mk.tolist(), [len(encs[i]) for i in r], out))
+
+    def site_replay():
+        # ReplayBufferDataset (cat_replay_buffer widening) + ReplayBufferBatch: one dataset, two epochs
+        data = _replay_buffer_module()
+        k = max(1, len(poss) // 2)
+        bufs = []
+        for lo, hi in ((0, k), (k, len(poss))):
+            if hi > lo:
+                e2, m2 = encoding.encode_batch(poss[lo:hi])
+                bufs.append({"positions": e2, "mask": m2, "values": torch.arange(lo, hi, dtype=torch.float32)})
+        ds = data.ReplayBufferDataset(bufs, batch_size=rng.randint(1, max(1, len(poss) - 1)), device="cpu")
+        for _epoch in range(2):
+            for batch in ds:
+                rec.calls.clear()
+                with torch.no_grad():
+                    rec(batch.inputs, *batch.extra_inputs)
+                x, mk, out = rec.calls[-1]
+                order = [int(v) for v in batch.values.tolist()]
+                runs.append(("replay", x.tolist(), None if mk is None else mk.tolist(), [len(encs[j]) for j in order], out))
+
+    def site_server():
+        # Server.run_model: one server, all rounds; rows are matched to requests in submission order
         rec.calls.clear()
-        evals.append((i, mw.evaluate(poss[i])))
-        x, mk, out = rec.calls[-1]
-        runs.append(("wrapper", x.tolist(), None if mk is None else mk.tolist(), [len(encs[i])], out))
+        serve_rounds(rec, [[encs[i] for i in r] for r in rounds])
+        todo = [encs[i] for r in rounds for i in r]
+        for x, mk, out in list(rec.calls):
+            xs = x.tolist()
+            lens = []
+            for r in xs:
+                e = todo.pop(0) if todo else None
+                lens.append(len(e) if e is not None and r[: len(e)] == list(e) else None)
+            runs.append(("server", xs, None if mk is None else mk.tolist(), lens, out))
 
-    # encode_batch + PositionValuePolicy, one batch object per round, extra_inputs read afresh each time
-    for r in rounds[:3]:
-        enc, mask = encoding.encode_batch([poss[i] for i in r])
-        b = batches.PositionValuePolicy({"positions": enc.long(), "mask": mask})
-        for _ in range(2):
-            rec.calls.clear()
-            with torch.no_grad():
-                rec(b.inputs, *b.extra_inputs)
-            x, mk, out = rec.calls[-1]
-            runs.append(("pvp", x.tolist(), mk.tolist(), [len(encs[i]) for i in r], out))
-
-    # ReplayBufferDataset (cat_replay_buffer widening) + ReplayBufferBatch: one dataset, two epochs
-    data = _replay_buffer_module()
-    k = max(1, len(poss) // 2)
-    bufs = []
-    for lo, hi in ((0, k), (k, len(poss))):
-        if hi > lo:
-            e2, m2 = encoding.encode_batch(poss[lo:hi])
-            bufs.append({"positions": e2, "mask": m2, "values": torch.arange(lo, hi, dtype=torch.float32)})
-    ds = data.ReplayBufferDataset(bufs, batch_size=rng.randint(1, max(1, len(poss) - 1)), device="cpu")
-    for _epoch in range(2):
-        for batch in ds:
-            rec.calls.clear()
-            with torch.no_grad():
-                rec(batch.inputs, *batch.extra_inputs)
-            x, mk, out = rec.calls[-1]
-            order = [int(v) for v in batch.values.tolist()]
-            runs.append(("replay", x.tolist(), mk.tolist(), [len(encs[j]) for j in order], out))
-
-    # Server.run_model: one server, all rounds; rows are matched to requests in submission order
-    rec.calls.clear()
-    serve_rounds(rec, [[encs[i] for i in r] for r in rounds])
-    todo = [encs[i] for r in rounds for i in r]
-    for x, mk, out in list(rec.calls):
-        xs = x.tolist()
-        lens = []
-        for r in xs:
-            e = todo.pop(0) if todo else None
-            lens.append(len(e) if e is not None and r[: len(e)] == list(e) else None)
-        runs.append(("server", xs, None if mk is None else mk.tolist(), lens, out))
-    return runs, evals, rounds
+    for name, f in (("wrapper", site_wrapper), ("pvp", site_pvp), ("replay", site_replay), ("server", site_server)):
+        try:
+            f()
+        except FATAL:
+            raise
+        except Exception as e:
+            problems.append((name, crash_text(e)))
+    return runs, evals, rounds, problems
 
 
 def _tie_call_sites(ctx, divs):
@@ -442,8 +518,12 @@ def _tie_call_sites(ctx, divs):
         if full:
             cfg.n_layer = 1
         m = xf.build(cfg)
-        runs, evals, rounds = call_site_runs(rng, cfg, m, pe)
+        runs, evals, rounds, problems = call_site_runs(rng, cfg, m, pe)
         rounds_str = [[ser.pos_str(pe[i][0]) for i in r] for r in rounds]
+        for site, text in problems:
+            ctx.evaluated()
+            ctx.count("model-mismatch")
+            divs.append(Divergence("corr.xformer", {"kind": "call-site-mask", "site": site, "len": None, "rounds": rounds_str}, text, "the call site answers"))
         ids = None if full else sorted(rng.sample(range(max_move_id()), N_SUB))
         n_out, w = xf.export(m, cfg, ids)
         lines, meta = [], []
@@ -463,7 +543,7 @@ def _tie_call_sites(ctx, divs):
                     widths, ms = ans[3:].split(";")
                     for l, wd, mr in zip(all_lens, widths.split(","), ms.split("/")):
                         exp[l] = (int(wd), [c == "1" for c in mr] if mr != "-" else [])
-                for r, mk, l in zip(rows, masks or [None] * len(rows), lens):
+                for r, mk, l in zip(rows, masks if masks is not None else [None] * len(rows), lens):
                     ctx.evaluated()
                     got = (len(r), mk)
                     if exp.get(l) != got:
@@ -478,7 +558,7 @@ def _tie_call_sites(ctx, divs):
                         ctx.count("model-mismatch")
             elif site == "wrapper":
                 ctx.evaluated()
-                if masks is not None or len(rows) != 1 or len(rows[0]) != lens[0]:
+                if masks is not None or len(rows) != 1 or len(rows[0]) != lens[0]:  # noqa
                     divs.append(Divergence("corr.xformer", {"kind": "call-site-mask", "site": site}, "mask/width %r" % (masks,), "one unpadded row, no mask"))
                     ctx.count("model-mismatch")
             # (2) the numbers
@@ -490,8 +570,15 @@ def _tie_call_sites(ctx, divs):
             for i in range(len(rows)):
                 ctx.evaluated()
                 ctx.nontrivial(json.dumps([cfg.to_json(), site, rows[i], i]))
-                a = out_vec(out, cfg, i, None, ids)
-                inp = {"kind": "tie-site", "site": site, "cfg": cfg.to_json(), "rows": rows, "mask": masks, "index": i}
+                inp = {"kind": "tie-site", "site": site, "cfg": cfg.to_json(), "rows": rows, "mask": masks, "index": i, "rounds": rounds_str}
+                try:
+                    a = out_vec(out, cfg, i, None, ids)
+                except FATAL:
+                    raise
+                except Exception as e:
+                    divs.append(Divergence("corr.xformer", inp, "model output unusable: " + crash_text(e), "values and moves for every row"))
+                    ctx.count("model-mismatch")
+                    continue
                 if res is None or res[i] is None:
                     divs.append(Divergence("corr.xformer", inp, "ok", ans[:80]))
                     ctx.count("model-mismatch")
@@ -503,21 +590,29 @@ def _tie_call_sites(ctx, divs):
                     ctx.count("model-mismatch")
                 else:
                     worst = max(worst, d)
-        # (3) the full evaluator: probabilities over all move ids
-        if full:
-            i0, (probs, value) = evals[0]
-            p, e = pe[i0]
-            ans = driver.run_lines([xf.case_line("evaluate", cfg, n_out, w, [e], None)])[0]
+        # (3) the full evaluator: what the long-lived ModelWrapper RETURNED on every call (probabilities over all
+        #     move ids, value) against the model's `evaluate` on the same position
+        if full and evals:
+            ans = driver.run_lines([xf.case_line("evaluate", cfg, n_out, w, [pe[i][1] for i, _ in evals], None)])[0]
             res = xf.parse_rows_answer(ans, "pv")
-            ctx.evaluated()
-            ctx.count("site:evaluate-full")
-            a = [float(value)] + probs.to(torch.float64).tolist()
-            inp = {"kind": "tie-evaluate", "cfg": cfg.to_json(), "pos": ser.pos_str(p)}
-            if res is None or res[0] is None:
-                divs.append(Divergence("corr.xformer", inp, "ok", ans[:80]))
-                ctx.count("model-mismatch")
-            else:
-                b = [res[0][0]] + res[0][1]
+            for k, (i, ev) in enumerate(evals):
+                ctx.evaluated()
+                ctx.count("site:evaluate-full")
+                inp = {"kind": "tie-evaluate", "cfg": cfg.to_json(), "pos": ser.pos_str(pe[i][0]), "rounds": rounds_str}
+                try:
+                    probs, value = ev
+                    a = [float(value)] + [float(x) for x in probs.to(torch.float64).tolist()]
+                except FATAL:
+                    raise
+                except Exception as e:
+                    divs.append(Divergence("corr.xformer", inp, "evaluate returned %r (%s)" % (type(ev).__name__, crash_text(e)), "(probabilities, value)"))
+                    ctx.count("model-mismatch")
+                    continue
+                if res is None or res[k] is None:
+                    divs.append(Divergence("corr.xformer", inp, "ok", ans[:80]))
+                    ctx.count("model-mismatch")
+                    continue
+                b = [res[k][0]] + res[k][1]
                 d = max((abs(x - y) for x, y in zip(a, b)), default=0.0) if len(a) == len(b) else float("inf")
                 if not d <= TIE_TOL:
                     divs.append(Divergence("corr.xformer", inp, "impl " + _brief(a), "model %s maxdiff=%r" % (_brief(b), d)))
@@ -613,16 +708,32 @@ def run_spec_positions(spec, cfg):
     dep = "batch-dependent" if len(all_lens) == 1 else "padding-dependent"
     pairs = []
     if kind == "evaluate":
-        # ONE wrapper lives through the whole sequence
+        # ONE wrapper lives through the whole sequence; every answer is compared with a FRESH wrapper's and with
+        # the same position evaluated inside a padded batch (next to the longest position of the session)
+        from tak.model import batches
+
+        longest = max((s_ for r in rounds for s_ in r), key=lambda s_: len(pos_of(s_)[1]))
+        in_batch = {}
+
+        def batched(s_):
+            if s_ not in in_batch:
+                enc, mask = encoding.encode_batch([pos_of(s_)[0], pos_of(longest)[0]])
+                b = batches.PositionValuePolicy({"positions": enc.long(), "mask": mask})
+                with torch.no_grad():
+                    out = m(b.inputs, *b.extra_inputs)
+                in_batch[s_] = [float(out["values"][0])] + torch.softmax(out["moves"][0], dim=0).to(torch.float64).tolist()
+            return in_batch[s_]
+
         w = wrapper.ModelWrapper(m)
         k = 0
         for r in rounds:
             for s_ in r:
                 pr, v = w.evaluate(pos_of(s_)[0])
                 probs = [float(x) for x in pr.to(torch.float64).tolist()]
+                got = [float(v)] + probs
                 pairs.append(("evaluate-range", "range of ModelWrapper.evaluate on call %d" % k, [float(v)], probs))
-                if k > 0:
-                    pairs.append((dep, "call %d of one ModelWrapper vs the same position on a fresh one" % k, alone(s_), [float(v)] + probs))
+                pairs.append(("evaluate-stale-state", "call %d of one ModelWrapper vs the same position on a fresh one" % k, alone(s_), got))
+                pairs.append(("padding-dependent", "call %d of one ModelWrapper vs the same position in a padded batch" % k, batched(s_), got))
                 k += 1
         return pairs
     if kind == "server":
@@ -702,16 +813,23 @@ def fails(spec, pairs=None):
     """A float32 discrepancy between 1x and 10x the tolerance counts only when the float64 twin of the same
     model (same seed: the weights are drawn in float64 and cast) fails too; otherwise it is rounding noise,
     which the property explicitly allows ("up to floating-point noise")."""
-    if pairs is None:
-        pairs = run_spec(spec)
-    bad = judge(spec, pairs)
-    if not bad or spec["cfg"].get("dtype", "float64") != "float32" or spec["kind"] == "evaluate":
-        return bad
-    loose = {(k, l) for k, l, _ in judge(spec, pairs, TOL["float32"] * NOISE_FACTOR)}
-    twin = json.loads(json.dumps(spec))
-    twin["cfg"]["dtype"] = "float64"
-    bad64 = {(k, l) for k, l, _ in judge(twin, run_spec(twin))}
-    return [(k, l, d) for k, l, d in bad if (k, l) in loose or (k, l) in bad64]
+    try:
+        if pairs is None:
+            pairs = run_spec(spec)
+        bad = judge(spec, pairs)
+        if not bad or spec["cfg"].get("dtype", "float64") != "float32":
+            return bad
+        loose = {(k, l) for k, l, _ in judge(spec, pairs, TOL["float32"] * NOISE_FACTOR)}
+        twin = json.loads(json.dumps(spec))
+        twin["cfg"]["dtype"] = "float64"
+        bad64 = {(k, l) for k, l, _ in judge(twin, run_spec(twin))}
+        return [(k, l, d) for k, l, d in bad if k == "evaluate-range" or (k, l) in loose or (k, l) in bad64]
+    except FATAL:
+        raise
+    except Exception as e:
+        # the implementation raised (or returned something that is not numbers): the evaluator did not give the
+        # probability vector and value the property promises
+        return [("impl-exception", "running the %s case" % spec.get("kind"), crash_text(e))]
 
 
 def gen_specs(ctx, n, cfg_fixed=None):
@@ -786,9 +904,15 @@ def _nontrivial(spec):
 def _direct(ctx, divs, specs):
     worst = {}
     for spec in specs:
-        pairs = run_spec(spec)
+        try:
+            pairs = run_spec(spec)
+        except FATAL:
+            raise
+        except Exception:
+            pairs = None
         bad = fails(spec, pairs)
-        ctx.evaluated(len(pairs))
+        pairs = pairs or []
+        ctx.evaluated(max(1, len(pairs)))
         ctx.count("direct:" + spec["kind"], len(pairs))
         ctx.count("direct:dtype=" + spec["cfg"].get("dtype", "float64"), len(pairs))
         if _nontrivial(spec):
@@ -1014,6 +1138,9 @@ def search(ctx, divergences, broken):
             specs = []
             if inp.get("kind") == "tie":
                 specs.append({"kind": "padded", "cfg": cj, "rows": inp["rows"], "lens": inp["lens"]})
+            if "rounds" in inp and cj["head"] == "pv" and cj["n_vocab"] == 256:
+                for kind in ("evaluate", "server", "dataset"):
+                    specs.append({"kind": kind, "cfg": cj, "rounds": inp["rounds"], "batch_size": 2, "epochs": 2})
             specs += list(gen_specs(ctx, 40, cfg_fixed=cj))
             for s in specs:
                 try:
